@@ -330,6 +330,9 @@ func runSeqMap(a *args, res *result) {
 		mode = "twin"
 		classes = map[string]bool{"twin": true}
 		res.Rule = "case = one call sequence with values nil/int/string/pointer/float/array/struct applied to Map and MapOf[string,any] (corresponding constructors); every result field compared; non-trivial = a resize happened or Compute(absent,delete) probed; distinct = hash of the call sequence"
+	case "C05":
+		classes = map[string]bool{"value": true}
+		res.Rule = "sequential: every LoadOrCompute / Compute made while the table crosses its grow thresholds invokes its user function exactly as often as its result says (exactly once for Compute; once iff loaded=false for LoadOrCompute), also on the call that triggers the grow and retries"
 	case "C07":
 		classes = map[string]bool{"range": true}
 		res.Rule = "quiescent exactness: after sequential call sequences (waves, probes, random) Range visits exactly the keys of the builtin map once each, early stop makes exactly j visits"
